@@ -113,8 +113,9 @@ func runC08(c *Ctx) {
 			}
 			n := calleeName(cc)
 			switch n {
-			case "(*bufio.Reader).ReadString", "(*bufio.Reader).ReadBytes", "(net.Conn).Close", "bufio.NewReader", "bufio.NewWriter", "bufio.NewReadWriter", "crypto/tls.Client", "(*crypto/tls.Conn).Handshake", "(*bufio.Writer).Flush":
-				return
+			case "(*bufio.Reader).ReadString", "(*bufio.Reader).ReadBytes", "(net.Conn).Close", "bufio.NewReader", "bufio.NewWriter", "bufio.NewReadWriter", "crypto/tls.Client", "(*crypto/tls.Conn).Handshake", "(*bufio.Writer).Flush",
+				"(net.Conn).SetDeadline", "(net.Conn).SetReadDeadline", "(net.Conn).SetWriteDeadline", "(*crypto/tls.Conn).SetDeadline", "(*crypto/tls.Conn).SetReadDeadline", "(*crypto/tls.Conn).SetWriteDeadline":
+				return // deadlines put nothing on the wire (C07.R8 watches them)
 			case "(*bufio.Writer).WriteString":
 				nW++
 				ok, why := c.crlfOfParam(cc.Args[1], fn)
